@@ -1,6 +1,7 @@
 package scen
 
 import (
+	"os"
 	"strings"
 	"time"
 
@@ -50,6 +51,9 @@ var c04Probes = []struct {
 	{"negative-zero-argument-shares-entry-with-zero", []string{`func inv(x) { 1 / x }`, `println(inv(0.0))`, `println(inv(-0.0))`}},
 	{"variadic-array-argument-key", []string{`func va(a, ..) { .. }`, `println(va(1, [[2, 3]]))`, `println(va(1, [2, 3]))`}},
 	{"cached-large-array-mutated-through-result", []string{`func mk(n) { [1, 2, 3, 4, 5, 6, 7, 8, 9] + [n] }`, `a = mk(1)`, `a[0] = 99`, `println(mk(1))`}},
+	// IO functions inside a function (the probe runs in a scratch directory)
+	{"io-save-in-function", []string{`func sv() { save("c04p").entries }`, `ga1 = 1`, `println(sv())`, `ga2 = 2`, `println(sv())`}},
+	{"io-load-in-function", []string{`cnt = 1`, `save("c04q")`, `func ld() { load("c04q"); cnt }`, `println(ld())`, `cnt = 2`, `save("c04q")`, `cnt = 0`, `println(ld())`, `println(cnt)`}},
 	{"cached-reader-of-deleted-constant", []string{`LIM = 5`, `func f(x) { x + LIM }`, `println(f(1))`, `del(LIM)`, `LIM = 7`, `println(f(1))`}},
 }
 
@@ -119,6 +123,22 @@ var c04Vocab = []struct{ name, needle string }{
 func (c04) Execute(h *core.History) *core.Outcome {
 	o := &core.Outcome{}
 	o.Stats.Rejects = int(h.C("rejects"))
+	if strings.HasPrefix(h.Strs["probe"], "io-") {
+		base := os.Getenv("VERIF_TMP")
+		if base == "" {
+			base = os.TempDir()
+		}
+		dir, err := os.MkdirTemp(base, "c04-")
+		if err != nil {
+			panic(err)
+		}
+		defer os.RemoveAll(dir)
+		cwd, _ := os.Getwd()
+		if err := os.Chdir(dir); err != nil {
+			panic(err)
+		}
+		defer func() { _ = os.Chdir(cwd) }()
+	}
 	ref := sessCfgOf(h)
 	ref.NoCache = true
 	alt := ref
